@@ -177,11 +177,19 @@ def sig(err):
 # (a) synthetic streams
 
 
-def stream_space(L):
+def stream_space(L, max_prefixes=0):
     cl = classes()
     OP = [z3.Int(f"op{i}") for i in range(L)]
     TG = [z3.Int(f"tg{i}") for i in range(L)]
+    # XA[i] = 1: instruction i carries an EXTENDED_ARG prefix (an instruction of its own in front of it; jumps to
+    # instruction i land on the prefix).  NOP takes no argument and never has one.
+    XA = [z3.Int(f"xa{i}") for i in range(L)]
     cs = []
+    for i in range(L):
+        cs += [XA[i] >= 0, XA[i] <= 1]
+        if "NOP" in cl:
+            cs.append(z3.Implies(OP[i] == cl.index("NOP"), XA[i] == 0))
+    cs.append(z3.Sum(XA) <= max_prefixes)
     kinds = [kind(n) for n in cl]
     dirs = [direction(n) if kinds[j] in ("cond", "uncond") else None for j, n in enumerate(cl)]
 
@@ -206,31 +214,40 @@ def stream_space(L):
 
     for i in range(L - 1):
         cs.append(z3.Implies(is_kind(i, ("return", "uncond")), is_target(i + 1)))
-    return z3.And(cs), [OP[0], TG[0], OP[1]] if L > 1 else [OP[0]], {"L": L, "OP": OP, "TG": TG}
+    return z3.And(cs), [OP[0], TG[0], OP[1]] if L > 1 else [OP[0]], {"L": L, "OP": OP, "TG": TG, "XA": XA}
 
 
-def build_stream(ops, tgs):
+def build_stream(ops, tgs, xas=None):
     """-> (dis.Instruction list, oracle tuples, code_end)"""
-    offs = []
+    xas = xas or [0] * len(ops)
+    offs = []  # where control lands when it goes to instruction i (its EXTENDED_ARG prefix, if any)
     o = 0
-    for n in ops:
+    for n, xa in zip(ops, xas):
         offs.append(o)
-        o += 2 * (1 + _cache(n))
+        o += 2 * xa + 2 * (1 + _cache(n))
     targets = {offs[t] for t in tgs if t >= 0}
     ins, orc = [], []
+
+    def emit(name, off, tgt, size):
+        vals = dict(opname=name, opcode=opcode.opmap[name], arg=1 if name == "EXTENDED_ARG" else 0, argval=tgt if tgt is not None else (1 if name == "EXTENDED_ARG" else 0),
+                    argrepr="", offset=off, starts_line=None, is_jump_target=off in targets, positions=None)
+        ins.append(dis.Instruction(**{k: vals.get(k) for k in dis.Instruction._fields}))
+        orc.append((off, name, tgt, off in targets, size))
+
     for i, n in enumerate(ops):
         tgt = offs[tgs[i]] if tgs[i] >= 0 else None
-        vals = dict(opname=n, opcode=opcode.opmap[n], arg=0, argval=tgt if tgt is not None else 0, argrepr="",
-                    offset=offs[i], starts_line=None, is_jump_target=offs[i] in targets, positions=None)
-        ins.append(dis.Instruction(**{k: vals.get(k) for k in dis.Instruction._fields}))
-        orc.append((offs[i], n, tgt, offs[i] in targets, 2 * (1 + _cache(n))))
+        off = offs[i]
+        if xas[i]:
+            emit("EXTENDED_ARG", off, None, 2)
+            off += 2
+        emit(n, off, tgt, 2 * (1 + _cache(n)))
     return ins, orc, o
 
 
 def check_stream(desc):
     from numba_scfg.core.datastructures.flow_info import FlowInfo
 
-    ins, orc, end = build_stream(desc["ops"], desc["targets"])
+    ins, orc, end = build_stream(desc["ops"], desc["targets"], desc.get("xarg"))
     fails = []
     try:
         fi = FlowInfo.from_bytecode(ins)
@@ -260,7 +277,10 @@ def stream_harness(E, ctx, aux):
     L = aux["L"]
     ops = [cl[E.realize(aux["OP"][i])] for i in range(L)]
     tgs = [E.realize(aux["TG"][i]) for i in range(L)]
-    desc = {"kind": "stream", "ops": ops, "targets": tgs}
+    xas = [E.realize(aux["XA"][i]) for i in range(L)]
+    desc = {"kind": "stream", "ops": ops, "targets": tgs, "xarg": xas}
+    if any(xas):
+        ctx.feature("stream-with-EXTENDED_ARG")
     ctx.current = desc
     ctx.evaluations += 1
     for n in set(ops):
@@ -356,7 +376,12 @@ def check_source(src, name="f"):
     return fails, "ok"
 
 
+_LONG = "".join(f"        x += {k}\n" for k in range(140))
 EXTRA_SOURCES = [
+    "def f(x):\n    if x:\n" + _LONG + "    return x\n",                       # forward jump with EXTENDED_ARG
+    "def f(x):\n    while x:\n" + _LONG + "    return x\n",                    # backward jump with EXTENDED_ARG
+    "def f(x):\n    for i in range(x):\n" + _LONG + "        if x > 9:\n            break\n    return x\n",
+    "def f(x):\n" + "".join(f"    x += {1000 + k}\n" for k in range(260)) + "    if x:\n        return 77777\n    return 88888\n",  # RETURN_CONST with a large constant index
     "def f(x):\n    return 1 if x is None else 2\n",
     "def f(x):\n    if x is not None:\n        return x\n    return 0\n",
     "def f(x):\n    while True:\n        x += 1\n        if x > 5:\n            break\n    return x\n",
@@ -400,9 +425,10 @@ def extra_harness(E, ctx, aux):
 
 
 def jobs(tier):
-    def sj(L, budget=600, required=True):
-        return Job(f"streams-L{L}", lambda: stream_space(L), stream_harness,
-                   bounds={"space": "S3(a) synthetic streams", "instructions": L, "opcode_classes": classes()}, budget_s=budget, required=required)
+    def sj(L, budget=600, required=True, prefixes=0):
+        return Job(f"streams-L{L}" + (f"-le{prefixes}-EXTENDED_ARG" if prefixes else ""), lambda: stream_space(L, prefixes), stream_harness,
+                   bounds={"space": "S3(a) synthetic streams", "instructions": L, "opcode_classes": classes(), "EXTENDED_ARG prefixes<=": prefixes},
+                   budget_s=budget, required=required)
 
     def pj(name, factory, depth, bounds, budget=900, required=True):
         return Job(name=name, space=lambda: (None, [], None), harness=program_harness_for(factory), bounds=bounds, budget_s=budget,
@@ -412,12 +438,14 @@ def jobs(tier):
         i = z3.Int("i")
         return z3.And(i >= 0, i < len(EXTRA_SOURCES)), [i], {"i": i}
 
-    js = [sj(1), sj(2), sj(3), sj(4)]
+    js = [sj(1, prefixes=1), sj(2, prefixes=2), sj(3, prefixes=2), sj(4, prefixes=1)]
     js.append(Job("hand-written-functions", xspace, extra_harness, bounds={"functions": len(EXTRA_SOURCES)}, budget_s=120))
     if tier == "quick":
         js.append(pj("compiled-S2-ctl-c2-d2-t1", lambda ch: s2.CtlGen(ch, 2, 2, 1), 3, {"space": "S3(b) compiled S2-ctl", "compounds<=": 2}))
         js.append(pj("compiled-S2-expr-d1", lambda ch: s2.ExprGen(ch, 1, rich_leaves=True), 2, {"space": "S3(b) compiled S2-expr", "depth<=": 1}))
     else:
+        js.append(sj(3, prefixes=3))
+        js.append(sj(4, prefixes=2, budget=1800))
         js.append(sj(5, budget=1800))
         js.append(sj(6, budget=900, required=False))
         js.append(pj("compiled-S2-ctl-c2-d3-t2", lambda ch: s2.CtlGen(ch, 2, 3, 2, arg_tests=True), 3, {"space": "S3(b) compiled S2-ctl", "compounds<=": 2, "depth<=": 3}, budget=1800))
